@@ -8,6 +8,7 @@ CONSTANTS
   RefE <- MCRefE
   RefAttrSeq <- MCRefAttr
   Inits <- MCInits
+  WithFork = TRUE
   WithSub = TRUE
   Depth = 3
   Emit = TRUE
